@@ -135,7 +135,7 @@ async fn history(out: &mut Out, rng: &mut Rng, corpus: bool) {
                         (c, format!("W {} {} {}", hex(key.as_bytes()), hex(&v), ex.map(|s| (s as u64 * 1000).to_string()).unwrap_or("-".into())), true, "set")
                     }
                     2 => {
-                        let eff = matches!(prev.as_ref().map(|p| &p.crdt), Some(MCrdt::Lww(_)));
+                        let eff = matches!(prev.as_ref().map(|p| &p.crdt), Some(MCrdt::Lww(_)) | Some(MCrdt::H(_)));
                         (Command::del(key.clone()), format!("D {}", hex(key.as_bytes())), eff, "del")
                     }
                     3 | 4 => {
